@@ -25,7 +25,7 @@ func (*BytecodeCompiler).addFailure
   assigns all(diagnostic.SyncDiagnosticList).DiagnosticList
 
 func (*BytecodeCompiler).emit
-  props C29
+  props C29 C32
   requires wfC(c)
   requires disjoint: sliceptr(bytes) + len(bytes) <= sliceptr(c.bytecode.Instructions) || sliceptr(c.bytecode.Instructions) + cap(c.bytecode.Instructions) <= sliceptr(bytes)
   ensures wf: wfC(c) && c.bytecode == old(c.bytecode) && started(c)
@@ -36,7 +36,7 @@ func (*BytecodeCompiler).emit
   ensures last: c.lastOpCode == op && c.secondToLastOpCode == old(c.lastOpCode)
 
 func (*BytecodeCompiler).emitByte
-  props C29
+  props C29 C32
   requires wfC(c) && started(c)
   ensures wf: wfC(c) && c.bytecode == old(c.bytecode) && started(c)
   ensures len: clen(c) == old(clen(c)) + 1
@@ -45,7 +45,7 @@ func (*BytecodeCompiler).emitByte
   ensures last: c.lastOpCode == old(c.lastOpCode) && c.secondToLastOpCode == old(c.secondToLastOpCode)
 
 func (*BytecodeCompiler).emitUint16
-  props C29
+  props C29 C32
   requires wfC(c) && started(c)
   ensures wf: wfC(c) && c.bytecode == old(c.bytecode) && started(c)
   ensures len: clen(c) == old(clen(c)) + 2
@@ -54,7 +54,7 @@ func (*BytecodeCompiler).emitUint16
   ensures last: c.lastOpCode == old(c.lastOpCode) && c.secondToLastOpCode == old(c.secondToLastOpCode)
 
 func (*BytecodeCompiler).emitUint32
-  props C29
+  props C29 C32
   requires wfC(c) && started(c)
   ensures wf: wfC(c) && c.bytecode == old(c.bytecode) && started(c)
   ensures len: clen(c) == old(clen(c)) + 4
@@ -64,7 +64,7 @@ func (*BytecodeCompiler).emitUint32
 // ---- forward jumps ---------------------------------------------------------------------
 // emitJump appends `op 0xff 0xff` and returns the offset of the placeholder operand.
 func (*BytecodeCompiler).emitJump
-  props C29
+  props C29 C32
   requires wfC(c)
   ensures wf: wfC(c) && c.bytecode == old(c.bytecode) && started(c)
   ensures len: clen(c) == old(clen(c)) + 3
@@ -76,7 +76,7 @@ func (*BytecodeCompiler).emitJump
 // patching writes the operand exactly when it fits in 16 bits; nothing else changes.  When it
 // does not fit nothing is written (the failure is recorded in c.Errors, outside this contract)
 func (*BytecodeCompiler).patchJumpWithTarget
-  props C29
+  props C29 C32
   requires wfC(c) && 0 <= offset && offset + 2 <= clen(c) && 0 <= target
   ensures wf: wfC(c) && c.bytecode == old(c.bytecode)
   ensures len: clen(c) == old(clen(c))
@@ -86,7 +86,7 @@ func (*BytecodeCompiler).patchJumpWithTarget
 // a patched forward jump lands on the offset that was the next instruction when it was
 // patched: the VM reads the operand at `offset`, advances past it (offset + 2) and adds it
 func (*BytecodeCompiler).patchJump
-  props C29
+  props C29 C32
   requires wfC(c) && 0 <= offset && offset + 2 <= clen(c)
   ensures wf: wfC(c) && c.bytecode == old(c.bytecode)
   ensures len: clen(c) == old(clen(c))
@@ -97,7 +97,7 @@ func (*BytecodeCompiler).patchJump
 // emitLoop appends `LOOP hi lo`; the VM reads the operand, stands at the end of the
 // instruction and subtracts it: it lands on startOffset
 func (*BytecodeCompiler).emitLoop
-  props C29
+  props C29 C32
   requires wfC(c) && location != nil && location.Span != nil && location.EndPos != nil && 0 <= startOffset && startOffset <= clen(c)
   ensures wf: wfC(c) && c.bytecode == old(c.bytecode) && started(c)
   ensures len: clen(c) == old(clen(c)) + 3
@@ -122,7 +122,7 @@ spec fn closeUpIdx(c *BytecodeCompiler, p int) int = ite(ci(c, p) == bytecode.CL
 spec fn closeUpLen(c *BytecodeCompiler, p int) int = ite(ci(c, p) == bytecode.CLOSE_UPVALUES_TO8, 2, ite(ci(c, p) == bytecode.CLOSE_UPVALUES_TO16, 3, 1))
 
 func (*BytecodeCompiler).emitSetLocalPop
-  props C29
+  props C29 C32
   requires wfC(c)
   ensures wf: wfC(c) && c.bytecode == old(c.bytecode) && started(c)
   ensures decodes: setLocalIdx(c, old(clen(c))) == index
@@ -130,7 +130,7 @@ func (*BytecodeCompiler).emitSetLocalPop
   ensures prefix: forall k int :: 0 <= k && k < old(clen(c)) ==> ci(c, k) == old(ci(c, k))
 
 func (*BytecodeCompiler).emitSetLocalNoPop
-  props C29
+  props C29 C32
   requires wfC(c)
   ensures wf: wfC(c) && c.bytecode == old(c.bytecode) && started(c)
   ensures dup: ci(c, old(clen(c))) == bytecode.DUP
@@ -139,7 +139,7 @@ func (*BytecodeCompiler).emitSetLocalNoPop
   ensures prefix: forall k int :: 0 <= k && k < old(clen(c)) ==> ci(c, k) == old(ci(c, k))
 
 func (*BytecodeCompiler).emitGetLocal
-  props C29
+  props C29 C32
   requires wfC(c)
   ensures wf: wfC(c) && c.bytecode == old(c.bytecode) && started(c)
   ensures decodes: getLocalIdx(c, old(clen(c))) == index
@@ -148,7 +148,7 @@ func (*BytecodeCompiler).emitGetLocal
 
 // BOX_LOCAL8 idx flag / BOX_LOCAL16 hi lo flag: the flag byte is 1 exactly for immutable boxes
 func (*BytecodeCompiler).emitBoxLocal
-  props C29
+  props C29 C32
   requires wfC(c)
   ensures wf: wfC(c) && c.bytecode == old(c.bytecode) && started(c)
   ensures short: index <= 255 ==> ci(c, old(clen(c))) == bytecode.BOX_LOCAL8 && ci(c, old(clen(c)) + 1) == index && ci(c, old(clen(c)) + 2) == ite(immutable, 1, 0) && clen(c) == old(clen(c)) + 3
@@ -156,7 +156,7 @@ func (*BytecodeCompiler).emitBoxLocal
   ensures prefix: forall k int :: 0 <= k && k < old(clen(c)) ==> ci(c, k) == old(ci(c, k))
 
 func (*BytecodeCompiler).emitSetUpvaluePop
-  props C29
+  props C29 C32
   requires wfC(c)
   ensures wf: wfC(c) && c.bytecode == old(c.bytecode) && started(c)
   ensures decodes: setUpvalueIdx(c, old(clen(c))) == index
@@ -164,7 +164,7 @@ func (*BytecodeCompiler).emitSetUpvaluePop
   ensures prefix: forall k int :: 0 <= k && k < old(clen(c)) ==> ci(c, k) == old(ci(c, k))
 
 func (*BytecodeCompiler).emitSetUpvalueNoPop
-  props C29
+  props C29 C32
   requires wfC(c)
   ensures wf: wfC(c) && c.bytecode == old(c.bytecode) && started(c)
   ensures dup: ci(c, old(clen(c))) == bytecode.DUP
@@ -173,7 +173,7 @@ func (*BytecodeCompiler).emitSetUpvalueNoPop
   ensures prefix: forall k int :: 0 <= k && k < old(clen(c)) ==> ci(c, k) == old(ci(c, k))
 
 func (*BytecodeCompiler).emitGetUpvalue
-  props C29
+  props C29 C32
   requires wfC(c)
   ensures wf: wfC(c) && c.bytecode == old(c.bytecode) && started(c)
   ensures decodes: getUpvalueIdx(c, old(clen(c))) == index
@@ -181,7 +181,7 @@ func (*BytecodeCompiler).emitGetUpvalue
   ensures prefix: forall k int :: 0 <= k && k < old(clen(c)) ==> ci(c, k) == old(ci(c, k))
 
 func (*BytecodeCompiler).emitCloseUpvalues
-  props C29
+  props C29 C32
   requires wfC(c)
   ensures wf: wfC(c) && c.bytecode == old(c.bytecode) && started(c)
   ensures decodes: closeUpIdx(c, old(clen(c))) == index
@@ -192,7 +192,7 @@ func (*BytecodeCompiler).emitCloseUpvalues
 // a count that fits in 8 bits uses the 8-bit opcode, one that fits in 16 bits the 16-bit opcode
 // with a big-endian operand; a larger count emits nothing (a compile error is recorded)
 func (*BytecodeCompiler).emitNewCollection
-  props C29
+  props C29 C32
   requires wfC(c) && location != nil && location.Span != nil && location.EndPos != nil && size >= 0
   ensures wf: wfC(c) && c.bytecode == old(c.bytecode)
   ensures short: size <= 255 ==> ci(c, old(clen(c))) == opcode8 && ci(c, old(clen(c)) + 1) == size && clen(c) == old(clen(c)) + 2
@@ -207,7 +207,7 @@ spec fn vlen(c *BytecodeCompiler) int = len(c.bytecode.Values)
 spec fn holdsVal(c *BytecodeCompiler, i int, v value.Value) bool = 0 <= i && i < vlen(c) && elem(c.bytecode.Values, i).flag == v.flag && elem(c.bytecode.Values, i).data == v.data && elem(c.bytecode.Values, i).ptr == v.ptr
 
 func (*BytecodeCompiler).emitAddValue
-  props C29
+  props C29 C32
   requires wfC(c) && location != nil && location.Span != nil && location.StartPos != nil
   ensures wf: wfC(c) && c.bytecode == old(c.bytecode)
   ensures pool: ret >= 0 ==> holdsVal(c, ret, val)
@@ -218,7 +218,7 @@ func (*BytecodeCompiler).emitAddValue
   ensures poolkept: forall k int :: 0 <= k && k < old(vlen(c)) ==> elem(c.bytecode.Values, k) == old(elem(c.bytecode.Values, k))
 
 func (*BytecodeCompiler).emitLoadValue
-  props C29
+  props C29 C32
   requires wfC(c) && location != nil && location.Span != nil && location.StartPos != nil
   ensures wf: wfC(c) && c.bytecode == old(c.bytecode)
   ensures pool: ret >= 0 ==> holdsVal(c, ret, val)
@@ -241,7 +241,7 @@ func (*BytecodeCompiler).registerCatch
   ensures code: c.bytecode == old(c.bytecode) && c.bytecode.Instructions == old(c.bytecode.Instructions)
 
 func (*BytecodeCompiler).emitInstantiate
-  props C29
+  props C29 C32
   requires wfC(c) && location != nil && location.Span != nil && location.StartPos != nil && args >= 0
   ensures wf: wfC(c) && c.bytecode == old(c.bytecode)
   ensures short: args <= 255 ==> ci(c, old(clen(c))) == bytecode.INSTANTIATE8 && ci(c, old(clen(c)) + 1) == args && clen(c) == old(clen(c)) + 2
